@@ -856,12 +856,15 @@ package objects
 // placeholder timeout (runs in a timer goroutine: a panic here takes the scheduler down): the per-task-group counter
 // is only touched for task groups that have tracking data
 //@ func (sa *Application) timeoutPlaceholderProcessing()
-//@   props C06 C13
+//@   props C06 C13 C04
 //@   sweep
 //@   mode nopanic=off
 //@   holds forall k string :: (k in sa.placeholderData) ==> sa.placeholderData[k] != nil
 //@   at[tracked] fieldaddr PlaceholderData.TimedOut#*: assert base != nil
 //@   at[releaseall] call objects.Application.removeAsksInternal#1: assert arg1 == ""
+//@   at[outstanding:C04,C06] call objects.Allocation.SetReleased#3: assert arg0 == alloc && arg1 && !alloc.allocated
+//@   at[announced:C04,C06] append pendingRelease#1: assert elem == alloc && !alloc.allocated
+//@   at[bound:C04,C06] append toRelease#2: assert elem == alloc
 //@   at[notinflight] call objects.Allocation.SetReleased#1: assert arg0 == alloc && arg1 && !alloc.released
 
 // a new node starts with the ledger identity in place
@@ -1298,11 +1301,14 @@ package objects
 // additional (queue level) victims never repeat a victim already chosen for the node: every candidate was checked
 // against the set of node victims, which holds every node victim that belongs to a known queue snapshot
 //@ func (p *Preemptor) calculateAdditionalVictims(nodeVictims []*Allocation) (out []*Allocation, ok bool)
-//@   props C07
+//@   props C07 C08
 //@   sweep
 //@   mode nopanic=off
 //@   loop 1: exhaustive
 //@   at[notdup] append potentialVictims#1: assert elem == victim && !(victim.allocationKey in seen)
+//@   at[workingcopy:C08] call objects.QueuePreemptionSnapshot.RemoveAllocation#1: assert arg0 == queueSnapshot && queueSnapshot == allocationsByQueueSnap[qv.QueuePath] && arg1 == victim.allocatedResource
+//@   at[workingcopy2:C08] call objects.QueuePreemptionSnapshot.RemoveAllocation#2: assert arg0 == queueSnapshot && queueSnapshot == allocationsByQueueSnap[qv.QueuePath] && arg1 == victim.allocatedResource
+//@   at[guaranteecheck:C08] call objects.QueuePreemptionSnapshot.GetPreemptableResource#1: assert arg0 == queueSnapshot && ncalls(objects.QueuePreemptionSnapshot.RemoveAllocation) > iter(ncalls(objects.QueuePreemptionSnapshot.RemoveAllocation))
 //@   at[kept] append victims#1: assert elem == victim
 
 // every child that is not stopped and has pending requests is offered to the scheduler - a draining queue keeps running
@@ -1320,3 +1326,102 @@ package objects
 //@   loop 1: each !qstopped(child) && qpending(child) ==> len(sortedQueues) == iter(len(sortedQueues)) + 1 && len(sortedMaxFairResources) == iter(len(sortedMaxFairResources)) + 1
 //@   loop 1: each len(sortedQueues) - iter(len(sortedQueues)) == len(sortedMaxFairResources) - iter(len(sortedMaxFairResources))
 //@   at[aligned] append sortedQueues#1: assert elem == child
+
+// the snapshot arithmetic all victim selection relies on: usage is allocated minus what is already being preempted, a
+// queue is preemptable by usage minus ITS guaranteed share (positive types only, never more than the parent allows), the
+// remaining guaranteed share is guaranteed minus usage (never more than the parent's); additions and removals move the
+// snapshot and every ancestor by exactly the given resource
+//@ func (qps *QueuePreemptionSnapshot) GetPreemptableResource() (res *resources.Resource)
+//@   props C08
+//@   sweep
+//@   mode nopanic=off
+//@   loop 1: exhaustive
+//@   at[parent] call objects.QueuePreemptionSnapshot.GetPreemptableResource#1: assert arg0 == qps.Parent
+//@   at[used] call resources.SubOnlyExisting#1: assert arg0 == qps.AllocatedResource && arg1 == qps.PreemptingResource
+//@   at[overguaranteed] call resources.SubOnlyExisting#2: assert arg0 == actual && arg1 == qps.GuaranteedResource
+//@   at[minparent] call resources.ComponentWiseMinOnlyExisting#1: assert arg0 == preemptableResource && arg1 == parentPreemptableResource
+
+//@ func (qps *QueuePreemptionSnapshot) GetRemainingGuaranteedResource() (res *resources.Resource)
+//@   props C08
+//@   sweep
+//@   mode nopanic=off
+//@   at[parent] call objects.QueuePreemptionSnapshot.GetRemainingGuaranteedResource#1: assert arg0 == qps.Parent
+//@   at[used] call resources.SubOnlyExisting#1: assert arg0 == qps.AllocatedResource && arg1 == qps.PreemptingResource
+//@   at[remaining] call resources.SubOnlyExisting#2: assert arg0 == qps.GuaranteedResource && arg1 == used
+//@   at[askused] call resources.SubOnlyExisting#3: assert arg0 == askQueueUsed && arg1 == qps.AskQueue.PreemptingResource
+//@   at[askremaining] call resources.SubOnlyExisting#4: assert arg0 == askQueueRemainingGuaranteed && arg1 == askQueueUsed
+//@   at[minparent] call resources.ComponentWiseMin#1: assert arg0 == remainingGuaranteed && arg1 == parent
+
+//@ func (qps *QueuePreemptionSnapshot) AddAllocation(alloc *resources.Resource)
+//@   props C08
+//@   sweep
+//@   mode nopanic=off
+//@   holds qps != nil ==> wfr(qps.AllocatedResource)
+//@   at[up] call objects.QueuePreemptionSnapshot.AddAllocation#1: assert arg0 == qps.Parent && arg1 == alloc
+//@   at[own] call resources.Resource.AddTo#1: assert arg0 == qps.AllocatedResource && arg1 == alloc
+//@   ensures[both] qps != nil ==> ncalls(objects.QueuePreemptionSnapshot.AddAllocation) == 1 && ncalls(resources.Resource.AddTo) == 1
+
+//@ func (qps *QueuePreemptionSnapshot) RemoveAllocation(alloc *resources.Resource)
+//@   props C08
+//@   sweep
+//@   mode nopanic=off
+//@   holds qps != nil ==> wfr(qps.AllocatedResource)
+//@   at[up] call objects.QueuePreemptionSnapshot.RemoveAllocation#1: assert arg0 == qps.Parent && arg1 == alloc
+//@   at[own] call resources.Resource.SubFrom#1: assert arg0 == qps.AllocatedResource && arg1 == alloc
+//@   ensures[both] qps != nil ==> ncalls(objects.QueuePreemptionSnapshot.RemoveAllocation) == 1 && ncalls(resources.Resource.SubFrom) == 1
+
+//@ func (qps *QueuePreemptionSnapshot) GetGuaranteedResource() (res *resources.Resource)
+//@   props C08
+//@   sweep
+//@   mode nopanic=off
+//@   at[min] call resources.ComponentWiseMin#1: assert arg1 == qps.GuaranteedResource && ncalls(objects.QueuePreemptionSnapshot.GetGuaranteedResource) == 1
+//@   at[parent] call objects.QueuePreemptionSnapshot.GetGuaranteedResource#1: assert arg0 == qps.Parent
+
+// the shim's confirmation of a swap on the application side: the placeholder leaves as PLACEHOLDER_REPLACED and exactly
+// its linked real allocation is booked in (as Replaced), once; without a linked real allocation nothing is booked in
+//@ func (sa *Application) ReplaceAllocation(allocationKey string) (ph *Allocation)
+//@   props C06 C03
+//@   sweep
+//@   mode nopanic=off
+//@   at[out] call objects.Application.removeAllocationInternal#1: assert arg0 == sa && arg1 == allocationKey && arg2 == 4
+//@   at[in] call objects.Application.addAllocationInternal#1: assert arg0 == sa && arg1 == Replaced && arg2 == alloc && alloc != nil && alloc == ph.release && ph != nil
+//@   at[used] call objects.Allocation.SetPlaceholderUsed#1: assert arg0 == alloc && arg1
+//@   at[unlink] call objects.Allocation.ClearRelease#1: assert arg0 == alloc && ncalls(objects.Application.addAllocationInternal) == 1
+//@   ensures[none] ph == nil ==> ncalls(objects.Application.addAllocationInternal) == 0
+
+// per task group, every placeholder ask that enters the application - pending or already bound (recovery) - is counted
+// once in that group's tracking data, so the numbers reported as replaced / timed out can never exceed the count
+//@ func (sa *Application) addAllocationAskInternal(ask *Allocation)
+//@   props C06
+//@   sweep
+//@   mode nopanic=off
+//@   at[own] call objects.Application.addPlaceholderData#1: assert arg0 == sa && arg1 == ask && ask.placeholder
+//@   ensures[counted] ask.placeholder ==> ncalls(objects.Application.addPlaceholderData) == 1
+//@   ensures[notcounted] !ask.placeholder ==> ncalls(objects.Application.addPlaceholderData) == 0
+
+//@ func (sa *Application) addPlaceholderData(ask *Allocation)
+//@   props C06
+//@   mode nopanic=off
+//@   assigns sa.placeholderData, sa.placeholderData[*], all PlaceholderData.Count
+//@   ensures[incremented] sa.placeholderData[ask.taskGroupName] != nil && sa.placeholderData[ask.taskGroupName].Count == wrap64(((old(sa.placeholderData) != nil && old(sa.placeholderData[ask.taskGroupName]) != nil) ? old(sa.placeholderData[ask.taskGroupName].Count) : 0) + 1)
+
+// preemption may cancel a stale reservation that blocks a candidate node: the application that HELD it gives it up and
+// that application's own queue is told, under that application's id, with the exact count
+//@ func (p *Preemptor) initWorkingState$calls(objects.Application.UnReserve)(node *Node) (cont bool)
+//@   props C09
+//@   sweep
+//@   mode nopanic=off
+//@   at[holder] call objects.Application.UnReserve#1: assert arg0 == res.app && arg1 == res.node && arg2 == res.alloc
+//@   at[holderqueue] call objects.Queue.UnReserve#1: assert arg0 == res.app.queue && arg1 == res.app.ApplicationID && arg2 == num
+
+// a child queue inherits "preemption disabled" from its parent whatever the spelling: the parent's value goes through the
+// same (case-insensitive) parser as a queue's own value, and a value that parses to disabled is handed down unchanged
+//@ spec abstract isdisabledvalue(v string) bool
+//@ func filterParentProperty(key string, value string) (v string)
+//@   props C07
+//@   sweep
+//@   mode nopanic=off
+//@   at[parsed] call policies.PreemptionPolicyFromString#1: assert arg0 == value && key == configs.PreemptionPolicy
+//@   at[parsedresult] call policies.PreemptionPolicyFromString#1 after: assume (ret1 == nil && ret0 == policies.DisabledPreemptionPolicy) <==> isdisabledvalue(value)
+//@   ensures[propagates] key == configs.PreemptionPolicy && isdisabledvalue(value) ==> v == value
+//@   ensures[asked] key == configs.PreemptionPolicy ==> ncalls(policies.PreemptionPolicyFromString) == 1
